@@ -293,11 +293,15 @@ def _step(seed, schema, frame, op, is_polars, add):
     if op[0] in ("update_column", "update_columns"):
         named = {op[2]}
     before_cols, after_cols = schema.columns, res.columns
+    prior_names = [] if schema.index is None else list(getattr(schema.index, "names", [schema.index.name]))
     rename = {op[1]: op[1] + "_renamed"} if op[0] == "rename_columns" else {}
     for cname, col in before_cols.items():
         newname = rename.get(cname, cname)
         if op[0] == "add_columns" and cname == op[1]:
             continue   # add_columns with an existing key replaces that column: it is the component the operation names
+        if op[0] == "reset_index" and not op[2] and cname in prior_names and (op[1] is None or op[1] == cname):
+            continue   # the level is re-inserted under a name that is already a column (after set_index(drop=False)): pandas itself
+            #            refuses this ("cannot insert a, already exists"), the schema-side outcome is not specified
         if newname in after_cols:
             b, a = _attrs(col, COMPONENT_ATTRS), _attrs(after_cols[newname], COMPONENT_ATTRS)
             touched = named if (op[0] in ("update_column", "update_columns") and cname == op[1]) else set()
@@ -315,7 +319,6 @@ def _step(seed, schema, frame, op, is_polars, add):
             ok_ = FP.fingerprint(got) == FP.fingerprint(want)
         if not ok_:
             add("update_applied", f"{seed}:{opname}", f"{op}: requested {op[2]}={want!r}, the new schema has {got!r}")
-    prior_names = [] if schema.index is None else list(getattr(schema.index, "names", [schema.index.name]))
     if op[0] == "set_index" and op[1] in prior_names:
         pass   # the index already had a level of that name (earlier set_index(drop=False)): which level came from the column is ambiguous
     elif op[0] == "set_index":
